@@ -48,7 +48,8 @@ RULE = (
     'layouts = 1..3 development branches x every subset of them having a '
     'stabilization branch x no/one hotfix branch (28; the hotfix branch is '
     'older than every development branch or shares the minor of the oldest '
-    'one, rotating by graph) x queues of 1..4 pull requests with EVERY '
+    'one, rotating by graph) + 3 layouts with BOTH hotfix branches (two '
+    'hotfix queues at once) x queues of 1..4 pull requests with EVERY '
     'destination tuple; each graph is built in memory the way add_to_queue '
     'builds it (pull-request ids permuted and pre-existing empty q/ branches '
     'present or not, both rotating by graph index + VERIF_SEED). Build '
@@ -106,6 +107,8 @@ def layouts():
         for mask in range(1 << ndev):
             for hf in (0, 1):
                 out.append((ndev, mask, hf))
+    # two hotfix branches at once: two hotfix queues beside the main one
+    out += [(1, 0, 3), (2, 0, 3), (2, 1, 3)]
     return out
 
 
@@ -158,7 +161,7 @@ def variation(gi, seed, m, layout):
     pr_ids = [sorted(base)[p] for p in perm]
     stale = bool((var // 2) % 2)
     ndev, mask, hf = layout
-    if hf:
+    if hf == 1:
         hf = 1 + (var // 4) % 2
     return (ndev, mask, hf), pr_ids, stale
 
